@@ -783,3 +783,166 @@ func ruleLoopHandler(p *Prog, r *Report, names []string) {
 }
 
 var _ = strings.Join
+
+// ruleJsonEscape: the hand-written JSON object scanner decides whether a quote ends a string. A backslash escapes the next
+// character only if it is not escaped itself, so the decision needs the parity of a run of backslashes: state whose next
+// value depends on its current value. A fixed-width look-behind (the previous byte, the previous two bytes) cannot decide it.
+// Decided structurally: among the loop-carried variables that feed the quote decision and are related to the backslash
+// constant, at least one is updated from its own current value (by computation or by a condition on it) within one iteration.
+func ruleJsonEscape(p *Prog, r *Report) {
+	const rule = "JSON.escape"
+	fn := p.Fn("mxj.getJson")
+	if fn == nil {
+		r.Anchor(rule, "mxj.getJson")
+		return
+	}
+	n := p.Name(fn)
+	sites := p.readSites([]*ssa.Function{fn})
+	if len(sites) != 1 {
+		r.Unknown(rule, n, "scanner loop", p.Pos(fn.Pos()), "expected one Read call")
+		return
+	}
+	hdr := innermostLoopHeader(sites[0].call.(ssa.Instruction).Block())
+	if hdr == nil {
+		r.Unknown(rule, n, "scanner loop", p.Pos(fn.Pos()), "the Read call is not in a loop")
+		return
+	}
+	isHeaderPhi := func(v ssa.Value) bool {
+		ph, ok := v.(*ssa.Phi)
+		return ok && ph.Block() == hdr
+	}
+	// one-iteration dependence: backward closure over operands and phi-selecting conditions, header phis are leaves
+	deps := func(seed ssa.Value) (map[ssa.Value]bool, map[ssa.Value]bool) {
+		seen := map[ssa.Value]bool{}
+		viaComputation := map[ssa.Value]bool{} // header phis reached through at least one non-phi instruction or a selecting condition
+		type item struct {
+			v        ssa.Value
+			computed bool
+		}
+		work := []item{{seed, false}}
+		for len(work) > 0 {
+			it := work[len(work)-1]
+			work = work[:len(work)-1]
+			key := it.v
+			if isHeaderPhi(key) {
+				if it.computed {
+					viaComputation[key] = true
+				}
+				seen[key] = true
+				continue
+			}
+			if seen[key] && !it.computed {
+				continue
+			}
+			seen[key] = true
+			in, ok := it.v.(ssa.Instruction)
+			if !ok {
+				continue
+			}
+			if ph, isPhi := it.v.(*ssa.Phi); isPhi {
+				for _, e := range ph.Edges {
+					work = append(work, item{e, it.computed})
+				}
+				// selecting conditions
+				j := ph.Block()
+				if d := j.Idom(); d != nil {
+					for _, b := range fn.Blocks {
+						if b == j || !(b == d || d.Dominates(b)) || !reachableFromSuccs(b)[j] || (b != d && j.Dominates(b)) {
+							continue
+						}
+						if ifi, ok := b.Instrs[len(b.Instrs)-1].(*ssa.If); ok {
+							work = append(work, item{ifi.Cond, true})
+						}
+					}
+				}
+				continue
+			}
+			for _, op := range in.Operands(nil) {
+				if op != nil && *op != nil {
+					work = append(work, item{*op, true})
+				}
+			}
+		}
+		return seen, viaComputation
+	}
+	isBackslash := func(v ssa.Value) bool {
+		k, ok := constInt(v)
+		return ok && k == 92
+	}
+	// (A) byte look-behind variables compared with the backslash must carry state of their own
+	var look []*ssa.Phi
+	for _, in := range hdr.Instrs {
+		ph, ok := in.(*ssa.Phi)
+		if !ok {
+			break
+		}
+		if refs := ph.Referrers(); refs != nil {
+			for _, ref := range *refs {
+				if bo, ok := ref.(*ssa.BinOp); ok && (isBackslash(bo.X) && bo.Y == ssa.Value(ph) || isBackslash(bo.Y) && bo.X == ssa.Value(ph)) {
+					look = append(look, ph)
+				}
+			}
+		}
+	}
+	selfDependent := func(ph *ssa.Phi) bool {
+		for i, e := range ph.Edges {
+			if !hdr.Dominates(hdr.Preds[i]) {
+				continue
+			}
+			if _, via := deps(e); via[ph] {
+				return true
+			}
+		}
+		return false
+	}
+	if len(look) > 0 {
+		var names []string
+		ok := true
+		for _, ph := range look {
+			names = append(names, ph.Comment)
+			if !selfDependent(ph) {
+				ok = false
+			}
+		}
+		if ok {
+			r.OK(rule, n, "escape state of the string scanner", p.Pos(fn.Pos()), "the variables compared with the backslash ("+strings.Join(uniq(names), ",")+") are updated from their own current value")
+		} else {
+			r.Bad(rule, n, "escape state of the string scanner", p.Pos(fn.Pos()), "the scanner decides escaping by comparing a copy of an earlier input byte ("+strings.Join(uniq(names), ",")+") with the backslash; such a fixed-width look-behind is refilled from the input alone, never from its own value, so it cannot tell an escaping backslash from an escaped one (\"c:\\\\\" or \\\\\\\" are misread)")
+		}
+		return
+	}
+	// (B) otherwise some loop-carried variable must be updated from its own value and from a comparison of the current byte with the backslash
+	found := ""
+	for _, in := range hdr.Instrs {
+		ph, ok := in.(*ssa.Phi)
+		if !ok {
+			break
+		}
+		usesBackslash := false
+		for i, e := range ph.Edges {
+			if !hdr.Dominates(hdr.Preds[i]) {
+				continue
+			}
+			s, _ := deps(e)
+			for v := range s {
+				if bo, ok := v.(*ssa.BinOp); ok && (isBackslash(bo.X) || isBackslash(bo.Y)) {
+					other := bo.X
+					if isBackslash(bo.X) {
+						other = bo.Y
+					}
+					if !isHeaderPhi(other) {
+						usesBackslash = true
+					}
+				}
+			}
+		}
+		if usesBackslash && selfDependent(ph) {
+			found = ph.Comment
+		}
+	}
+	if found != "" {
+		r.OK(rule, n, "escape state of the string scanner", p.Pos(fn.Pos()), "variable "+found+" is updated from its own current value and from a test of the current byte against the backslash: the parity of a run of backslashes is tracked")
+	} else {
+		r.Bad(rule, n, "escape state of the string scanner", p.Pos(fn.Pos()), "no loop-carried variable tracks whether the current character is escaped")
+	}
+}
